@@ -328,6 +328,7 @@ def san_summary(stderr):
 
 
 def run_resilient(exe, lines, workdir, tag, max_restarts=25):
+    max_restarts = int(os.environ.get('VERIF_MAX_RESTARTS', max_restarts))
     """run exe on the case lines; when the process dies, attribute the death to the case that was being
     executed (its id is printed before it runs) and continue with the cases after it.
     returns (list of output line or None per case, {case index: crash info})"""
